@@ -424,3 +424,159 @@ theorem DPDA.lift_stepN (M : DPDA σ α γ) (k : Nat) (c c' : Config σ α γ) :
   | succ k ih => simp only [stepN_succ_iff, ih, DPDA.lift_step]
 
 end AV.PDA
+
+namespace AV.PDA
+set_option linter.unusedSectionVars false
+variable {σ α γ τ : Type} [DecidableEq σ] [DecidableEq α] [DecidableEq γ]
+
+/-! ### the whole DPDA reader -/
+
+/-- What `DPDA.read_input_stepwise` does (any table, any set order `pick`). -/
+structure DPDA.ReadSpec (M : DPDA σ α γ) (w : List α) (fuel : Nat)
+    (r : List (Config σ α γ) × Outcome) : Prop where
+  head : r.1[0]? = some (M.start w)
+  chain : ∀ k c c', r.1[k]? = some c → r.1[k + 1]? = some c' → Step M.moves c c'
+  level : ∀ k c, r.1[k]? = some c → StepN M.moves k (M.start w) c
+  lenPos : 1 ≤ r.1.length
+  len : r.1.length ≤ fuel + 1
+  before : ∀ k c, r.1[k]? = some c → k + 1 < r.1.length → M.hasAccepted c = false
+  returned : r.2 = .returned ↔ ∃ c, r.1.getLast? = some c ∧ M.hasAccepted c = true
+  rejected : r.2 = .raised (.lib .rejectionException) ↔
+    r.1.length ≤ fuel ∧ ∃ c, r.1.getLast? = some c ∧ M.hasAccepted c = false ∧ ¬ ∃ c', Step M.moves c c'
+  fuelOut : r.2 = .outOfFuel ↔
+    r.1.length = fuel + 1 ∧ ∃ c, r.1.getLast? = some c ∧ M.hasAccepted c = false
+  onlyRej : ∀ e, r.2 = .raised e → e = .lib .rejectionException
+
+theorem DPDA.readStepwise_spec (M : DPDA σ α γ) (pick : Config σ α γ → Bool) (fuel : Nat) (w : List α) :
+    DPDA.ReadSpec M w fuel (M.readStepwise pick fuel w) := by
+  unfold DPDA.readStepwise
+  cases ha : M.hasAccepted (M.start w) with
+  | true =>
+    simp only [ha]
+    refine ⟨rfl, ?_, ?_, by simp, by simp, ?_, by simp [ha], by simp [ha], by simp [ha], by simp⟩
+    · intro k c c' _ hc'; simp at hc'
+    · intro k c hc
+      cases k with
+      | zero => simp at hc; subst hc; exact .zero _
+      | succ k => simp at hc
+    · intro k c _ hk; simp at hk
+  | false =>
+    simp only [ha]
+    have S := M.loop_spec pick (M.start w) fuel 0 (M.start w) (.zero _) ha
+    have hlen : (M.start w :: (M.loop pick fuel (M.start w)).1).length
+        = (M.loop pick fuel (M.start w)).1.length + 1 := rfl
+    refine ⟨rfl, S.chain, ?_, by simp, by simp only [hlen]; exact Nat.succ_le_succ S.len, ?_, ?_, ?_, ?_,
+      S.onlyRej⟩
+    · intro k c hc
+      cases k with
+      | zero => simp at hc; subst hc; exact .zero _
+      | succ k =>
+        simp only [List.getElem?_cons_succ] at hc
+        have := S.level k c hc
+        rw [show 0 + 1 + k = k + 1 by omega] at this; exact this
+    · intro k c hc hk
+      cases k with
+      | zero => simp at hc; subst hc; exact ha
+      | succ k =>
+        simp only [List.getElem?_cons_succ] at hc
+        exact S.before k c hc (by simp only [hlen] at hk; omega)
+    · rw [S.returned]
+      cases hl : (M.loop pick fuel (M.start w)).1 with
+      | nil => simp [ha]
+      | cons b t => simp [List.getLast?_cons_cons]
+    · rw [S.rejected, hlen, List.getLast?_cons]
+      simp only [Nat.succ_le_iff, Option.some.injEq, exists_eq_left']
+    · rw [S.fuelOut, hlen, List.getLast?_cons]
+      simp only [Nat.succ.injEq, Option.some.injEq, exists_eq_left']
+
+/-- For a deterministic table: the DPDA reader returns for some fuel iff an accepting
+configuration is reachable. -/
+theorem DPDA.returned_iff (M : DPDA σ α γ) (hdet : ¬ M.TwoMoves) (pick : Config σ α γ → Bool)
+    (w : List α) :
+    (∃ fuel, (M.readStepwise pick fuel w).2 = .returned) ↔
+      ∃ k c, StepN M.moves k (M.start w) c ∧ M.hasAccepted c = true := by
+  constructor
+  · rintro ⟨fuel, h⟩
+    have S := M.readStepwise_spec pick fuel w
+    obtain ⟨c, hc, ha⟩ := S.returned.mp h
+    rw [List.getLast?_eq_getElem?] at hc
+    exact ⟨_, c, S.level _ c hc, ha⟩
+  · rintro ⟨k, c, hc, ha⟩
+    refine ⟨k, ?_⟩
+    have S := M.readStepwise_spec pick k w
+    cases hout : (M.readStepwise pick k w).2 with
+    | returned => rfl
+    | outOfFuel =>
+      obtain ⟨hl, c', hc', ha'⟩ := S.fuelOut.mp hout
+      rw [List.getLast?_eq_getElem?, hl, Nat.add_sub_cancel] at hc'
+      have := M.stepN_functional hdet (S.level k c' hc') hc
+      subst this
+      rw [ha] at ha'; cases ha'
+    | raised e =>
+      obtain rfl := S.onlyRej e hout
+      obtain ⟨hl, c', hc', ha', hns⟩ := S.rejected.mp hout
+      rw [List.getLast?_eq_getElem?] at hc'
+      have hlv := S.level _ c' hc'
+      have hpos := S.lenPos
+      rcases Nat.lt_or_ge ((M.readStepwise pick k w).1.length - 1) k with hlt | hge
+      · -- the accepting configuration lies further along the unique run: `c'` has a successor
+        obtain ⟨d, hd⟩ := stepN_prefix hc ((M.readStepwise pick k w).1.length - 1 + 1) (by omega)
+        obtain ⟨d', hd', hs⟩ := stepN_succ_iff.mp hd
+        obtain rfl := M.stepN_functional hdet hd' hlv
+        exact absurd ⟨d, hs⟩ hns
+      · have hk : (M.readStepwise pick k w).1.length - 1 = k := by omega
+        rw [hk] at hlv
+        obtain rfl := M.stepN_functional hdet hlv hc
+        rw [ha] at ha'; cases ha'
+
+/-- For a deterministic table: the DPDA reader raises `RejectionException` for some fuel iff
+the run dies out and no reachable configuration is accepting. -/
+theorem DPDA.rejected_iff (M : DPDA σ α γ) (hdet : ¬ M.TwoMoves) (pick : Config σ α γ → Bool)
+    (w : List α) :
+    (∃ fuel, (M.readStepwise pick fuel w).2 = .raised (.lib .rejectionException)) ↔
+      (∃ k, ∀ c, ¬ StepN M.moves k (M.start w) c) ∧
+      ¬ ∃ k c, StepN M.moves k (M.start w) c ∧ M.hasAccepted c = true := by
+  constructor
+  · rintro ⟨fuel, h⟩
+    have S := M.readStepwise_spec pick fuel w
+    obtain ⟨hl, c', hc', ha', hns⟩ := S.rejected.mp h
+    rw [List.getLast?_eq_getElem?] at hc'
+    have hlv := S.level _ c' hc'
+    have hpos := S.lenPos
+    refine ⟨⟨(M.readStepwise pick fuel w).1.length - 1 + 1, fun c hc => ?_⟩, ?_⟩
+    · obtain ⟨d', hd', hs⟩ := stepN_succ_iff.mp hc
+      obtain rfl := M.stepN_functional hdet hd' hlv
+      exact hns ⟨c, hs⟩
+    · rintro ⟨k, c, hc, ha⟩
+      rcases Nat.lt_or_ge k ((M.readStepwise pick fuel w).1.length - 1) with hlt | hge
+      · -- an earlier configuration of the unique run: it was yielded and found not accepting
+        obtain ⟨d, hd⟩ : ∃ d, (M.readStepwise pick fuel w).1[k]? = some d := by
+          have : k < (M.readStepwise pick fuel w).1.length := by omega
+          exact ⟨_, List.getElem?_eq_getElem this⟩
+        obtain rfl := M.stepN_functional hdet (S.level k d hd) hc
+        have := S.before k d hd (by omega)
+        rw [ha] at this; cases this
+      · rcases Nat.lt_or_ge ((M.readStepwise pick fuel w).1.length - 1) k with hlt | hge'
+        · obtain ⟨d, hd⟩ := stepN_prefix hc ((M.readStepwise pick fuel w).1.length - 1 + 1) (by omega)
+          obtain ⟨d', hd', hs⟩ := stepN_succ_iff.mp hd
+          obtain rfl := M.stepN_functional hdet hd' hlv
+          exact hns ⟨d, hs⟩
+        · have hk : (M.readStepwise pick fuel w).1.length - 1 = k := by omega
+          rw [hk] at hlv
+          obtain rfl := M.stepN_functional hdet hlv hc
+          rw [ha] at ha'; cases ha'
+  · rintro ⟨⟨k, hk⟩, hna⟩
+    refine ⟨k, ?_⟩
+    have S := M.readStepwise_spec pick k w
+    cases hout : (M.readStepwise pick k w).2 with
+    | returned =>
+      obtain ⟨c, hc, ha⟩ := S.returned.mp hout
+      rw [List.getLast?_eq_getElem?] at hc
+      exact absurd ⟨_, c, S.level _ c hc, ha⟩ hna
+    | outOfFuel =>
+      obtain ⟨hl, c', hc', _⟩ := S.fuelOut.mp hout
+      rw [List.getLast?_eq_getElem?, hl, Nat.add_sub_cancel] at hc'
+      exact absurd (S.level k c' hc') (hk c')
+    | raised e => rw [S.onlyRej e hout]
+
+end AV.PDA
